@@ -127,6 +127,7 @@ struct G<'r> {
     has_fail_in_proc: bool,
     uses_resume_label: bool,
     pending_return_labels: Vec<String>,
+    in_proc_now: bool,
 }
 
 const GLOBALS: [&str; 4] = ["G1%", "G2%", "G3%", "G4%"];
@@ -277,7 +278,7 @@ impl<'r> G<'r> {
                 0
             },
             if self.f.gosub && !self.in_gosub_body { 8 } else { 0 },
-            if self.f.stray_return && !self.in_proc && !self.in_gosub_body {
+            if self.f.stray_return && !self.in_gosub_body {
                 2
             } else {
                 0
@@ -345,6 +346,35 @@ impl<'r> G<'r> {
             };
             body.push(s);
         }
+        // RETURN from inside a FOR body of the routine
+        if self.f.for_plain && self.rng.chance(1, 4) {
+            let id = self.id();
+            let var = format!("W{}%", id);
+            let t = self.trace();
+            let ret = self.st(StmtKind::Return(None));
+            let guard = Stmt {
+                id: self.id(),
+                kind: StmtKind::IfLine {
+                    cond: Expr::Cmp(
+                        CmpOp::Eq,
+                        Box::new(Expr::Var(var.clone())),
+                        Box::new(Expr::Int(2)),
+                    ),
+                    then_s: Box::new(ret),
+                    else_s: None,
+                },
+            };
+            body.push(Stmt {
+                id,
+                kind: StmtKind::For {
+                    var,
+                    from: Expr::Int(1),
+                    to: Expr::Int(3),
+                    step: None,
+                    body: vec![t, guard],
+                },
+            });
+        }
         // nested GOSUB (acyclic: a new body)
         if self.rng.chance(1, 4) && self.n_gosub < 4 {
             self.in_gosub_body = false;
@@ -353,7 +383,10 @@ impl<'r> G<'r> {
             body.push(inner);
             body.push(self.trace());
         }
-        if self.f.return_label && self.rng.chance(1, 2) {
+        if self.in_proc_now && self.rng.chance(1, 5) {
+            // the subprogram ends while this GOSUB is pending
+            body.push(self.st(StmtKind::ExitProc));
+        } else if self.f.return_label && self.rng.chance(1, 2) {
             // RETURN label: the label is placed at the end of the enclosing top-level list
             let l = format!("RT{}", self.n_gosub);
             self.pending_return_labels.push(l.clone());
@@ -383,6 +416,46 @@ impl<'r> G<'r> {
         let mut v = vec![];
         for _ in 0..n {
             v.push(self.stmt(depth));
+        }
+        // EXIT SUB / EXIT FUNCTION from inside a block
+        if self.in_proc_now && !self.in_gosub_body && self.rng.chance(1, 10) {
+            let ex = self.st(StmtKind::ExitProc);
+            let guard = Stmt {
+                id: self.id(),
+                kind: StmtKind::IfLine {
+                    cond: self.cond(),
+                    then_s: Box::new(ex),
+                    else_s: None,
+                },
+            };
+            let at = self.rng.below(v.len() + 1);
+            v.insert(at, guard);
+        }
+        // a label inside the block and a GOTO to it from further up in the same block
+        // ("continue"); the GOTO may sit in a nested block
+        if self.in_loop_depth > 0 && self.f.goto_fwd && self.rng.chance(1, 8) && !v.is_empty() {
+            self.n_labels += 1;
+            let label = format!("LC{}", self.n_labels);
+            let goto = Stmt {
+                id: self.id(),
+                kind: StmtKind::Goto(label.clone()),
+            };
+            let guard = Stmt {
+                id: self.id(),
+                kind: StmtKind::IfLine {
+                    cond: self.cond(),
+                    then_s: Box::new(goto),
+                    else_s: None,
+                },
+            };
+            let at = self.rng.below(v.len());
+            let placed = self.rng.chance(1, 2)
+                && insert_in_block(&mut v[at], &guard, self.rng, false, false);
+            if !placed {
+                v.insert(at, guard);
+            }
+            let lab = self.st(StmtKind::Label(label));
+            v.push(lab);
         }
         // bias: a failing or faultable statement as the LAST statement of the block
         if self.f.fails && self.rng.chance(1, 3) {
@@ -718,6 +791,7 @@ impl<'r> G<'r> {
 
     fn gen_proc(&mut self, name: &str, is_function: bool) -> Proc {
         self.in_proc = true;
+        self.in_proc_now = true;
         let saved_bodies = std::mem::take(&mut self.gosub_bodies);
         let saved_budget = self.budget;
         self.budget = 8;
@@ -792,6 +866,7 @@ impl<'r> G<'r> {
         }
         self.budget = saved_budget;
         self.in_proc = false;
+        self.in_proc_now = false;
         Proc {
             name: name.to_string(),
             is_function,
@@ -858,6 +933,7 @@ pub fn gen_control_flow(rng: &mut Rng, avoid: &Avoid) -> Scenario {
         has_fail_in_proc: false,
         uses_resume_label: false,
         pending_return_labels: vec![],
+        in_proc_now: false,
     };
     // procedures first (higher numbers are generated first so lower ones can call them)
     let mut procs: Vec<Proc> = vec![];
